@@ -96,6 +96,8 @@ def model(run, thorough):
             files, nw, wgc, "PROPERTY Terminates\n" if live else "")
         r = vlib.tlc_ok(vlib.run_tlc("Detector", c, timeout=1800), "Detector")
         run.add_tlc(r, "Detector files=%s workers=%d%s" % (files, nw, " +liveness" if live else ""))
+    vlib.coverage_audit(run, "Detector", ['CONSTANTS Files={"a","b","c"} NW=2 WgCount=3\nSPECIFICATION Spec\nCHECK_DEADLOCK FALSE\n'],
+                        ["MainAdd", "MainHeader", "MainExit", "Walk", "Recv", "Spawn", "Send", "Write"])
     for files, nw, wgc, want in [('{"a","b","c"}', 2, 2, "OneRowPerFile")]:
         c = 'CONSTANTS Files=%s NW=%d WgCount=%d\nSPECIFICATION Spec\nINVARIANTS OneRowPerFile\nCHECK_DEADLOCK FALSE\n' % (files, nw, wgc)
         r = vlib.run_tlc("Detector", c, timeout=600)
